@@ -55,6 +55,26 @@ CLAIMS = {
         text="Static decision of the mapping phase -> behaviour for every kind, of the plumbing of the phase and per-node phase table from solve() to every law, of phase independence (no state carried between phase iterations except append-only accumulators), and of the phase-list / unknown-phase prologue.",
         note=TB + "Inner loops are assumed to execute at least once in the loop-carried analysis (a carry that exists only on a zero-trip inner loop is missed, never invented). Not decided: numeric values per phase.",
         ref="DESIGN.md section 4 C06"),
+    "C10": dict(
+        technique="structural rules on the interpolator classes; guard truth table of the 2-D clamp ladder against a reference; clone agreement of the seven table-flattening blocks (idiom matcher); check-precedes-construction on constructor path summaries; lookup-argument rule on law summaries",
+        text="Static decision of everything the repository adds around np.interp / LinearNDInterpolator: magnitudes of axes, values and query, edge clamping on all eight outside regions, per-instance construction, axis order and row-major flattening identical in all seven constructors, validation before construction with the key that is read, and (|io|, |vi|) at every lookup. The interpolation values themselves are a library contract.",
+        note=TB + "Not decided: exactness on the grid, linearity along grid lines, range within a cell, absence of NaN inside the hull, constant-table == constant: properties of Delaunay interpolation on the given grid.",
+        ref="DESIGN.md section 4 C10"),
+    "C11": dict(
+        technique="path summaries of the eleven constructors (sign x magnitude arguments); magnitude taint against the parameters the law summaries read; range obligations as reference conditions discharged by propositional implication from the accepting path's guards; helper-function summaries",
+        text="Static decision that every parameter the laws treat as a non-negative magnitude is stored as abs(argument) on every accepting scalar path (the sign lemmas of the term algebra are thereby justified), that interpolator constants and arrays are magnitudes, that every documented range check is present and correctly oriented on every accepting path, and that the table / limits validators reject what they document.",
+        note=TB + "A resistance list is stored raw; the rule relies on the law taking abs() of the element (checked by C05-R4 / C03-R3). Consequences for solved systems (no negative loss, efficiency <= 100 %) are derived with C02, not separately decided.",
+        ref="DESIGN.md section 4 C11"),
+    "C12": dict(
+        technique="writer / reader table agreement: keyword <- saved key maps of every constructor call in from_file, reader defaults vs constructor defaults, 'system' block keys, verbatim restore of registries, record structure of save(), version-gate comparison",
+        text="Static decision of schema agreement between save() and from_file(): every keyword of every kind is fed from the saved parameter of the same name with the constructor's default, registries are written from and restored to the registry of the same name unmodified, limits and mux input order are written from the right source, and a newer file is refused before anything is built.",
+        note=TB + "Not decided: JSON fidelity of floats; equality of solved values after reload (follows from equal parameters and structure).",
+        ref="DESIGN.md section 4 C12"),
+    "C13": dict(
+        technique="schema / signature agreement between the per-kind _cparams tables and the constructors (constants folded), isinstance-branch vs accepted-type agreement, shape of the generic loader and of LinReg's loader",
+        text="Static decision that for every kind the TOML schema and the constructor agree on keys, optionality, defaults and dict / list forms, that the generic loader raises KeyError / ValueError as documented before storing anything, builds cls(name, **params) and leaves the shared default limits alone, and that LinReg's own loader maps keys to keywords one to one.",
+        note=TB + "Not decided: TOML parsing. Rectifier.vdrop is mandatory in the file although optional in the constructor (allowed: the file is stricter).",
+        ref="DESIGN.md section 4 C13"),
     "C14": dict(
         technique="path summaries of the edit methods (helpers inlined, loops as one symbolic iteration, branch decisions ordered with effects); check-dominates-mutation obligations written as reference code and discharged by propositional implication over canonical atoms",
         text="Static decision that on every accepting path of add_source / add_comp / change_comp / del_comp each conjunct of the well-formedness invariant is re-established by a check taken before the first modification, for all inputs and hence by induction for all edit histories; plus uniform child-type tables and single-parent re-linking.",
